@@ -381,6 +381,56 @@ class ProjectorModel:
         return (subst_poly(res[0], mp), subst_poly(res[1], mp))
 
 
+def _inline_projector_helpers(t: ast.AST, cls: ast.ClassDef, rule: str, depth: int = 0) -> ast.AST:
+    """`self._helper(a, b)` / `Class._helper(a, b)` inside a slot's expression is replaced by what the helper (a method or static method of
+    the projector class with a straight-line body) returns for these arguments; `X is None` tests on a parameter are decided by
+    whether the argument is the constant None (a defaulted parameter that the call omits is None-tested with its default)."""
+    from .straight import run as _run_s
+    from .resolve import clone as _cl
+
+    class T(ast.NodeTransformer):
+        def visit_Call(self, node):
+            self.generic_visit(node)
+            fn = node.func
+            if not (isinstance(fn, ast.Attribute) and isinstance(fn.value, ast.Name) and fn.value.id in ("self", cls.name, "cls")):
+                return node
+            hs = [h for h in cls.body if isinstance(h, ast.FunctionDef) and h.name == fn.attr]
+            if len(hs) != 1 or depth > 3 or any(isinstance(a_, ast.Starred) for a_ in node.args):
+                return node
+            h = hs[0]
+            static = any(norm(d_) in ("staticmethod",) for d_ in h.decorator_list)
+            params = [a_.arg for a_ in h.args.args]
+            if not static and params and params[0] in ("self", "cls"):
+                params = params[1:]
+            if h.args.vararg or h.args.kwarg or len(node.args) > len(params):
+                return node
+            given = dict(zip(params, node.args))
+            for k_ in node.keywords:
+                if k_.arg is None or k_.arg in given or k_.arg not in params:
+                    return node
+                given[k_.arg] = k_.value
+            defaults = dict(zip([a_.arg for a_ in h.args.args][len(h.args.args) - len(h.args.defaults):], h.args.defaults))
+            for p_ in params:
+                if p_ not in given:
+                    if p_ not in defaults:
+                        return node
+                    given[p_] = _cl(defaults[p_])
+
+            def atom(n_):
+                if isinstance(n_, ast.Compare) and len(n_.ops) == 1 and isinstance(n_.ops[0], (ast.Is, ast.IsNot)) \
+                        and isinstance(n_.comparators[0], ast.Constant) and n_.comparators[0].value is None:
+                    # after substitution the left side IS the argument expression
+                    is_none = isinstance(n_.left, ast.Constant) and n_.left.value is None
+                    return is_none if isinstance(n_.ops[0], ast.Is) else not is_none
+                return None
+            try:
+                out = _run_s(h, atom, rule, env0=given)
+            except AnalysisError:
+                return node
+            return _inline_projector_helpers(out, cls, rule, depth + 1)
+    return T().visit(_cl(t))
+
+
 def rule_projector(rep: Report, repo: Repo):
     m = ProjectorModel(repo)
     loc = lambda n: repo.loc("linalg", n)
@@ -481,6 +531,7 @@ def rule_projector(rep: Report, repo: Repo):
                     return not is_sparse
                 return None
             t = _run(f, atom, RULE)
+            t = _inline_projector_helpers(t, m.cls, RULE)
             results[norm(t)] = t
         for ttxt, t in results.items():
             got = ld.Den(env, RULE).ev(t)
